@@ -133,6 +133,20 @@ func judgeBatch(cs *BatchCase, o *BatchObs) []scen.Finding {
 				okSeen[e.Item] = true
 			}
 		}
+		lastOK := make([]bool, n) // the item's last recorded exec / fallback return was a success
+		for _, e := range o.Events {
+			if (e.Kind == "exec-ret" || e.Kind == "fallback") && e.Item >= 0 && e.Item < n {
+				lastOK[e.Item] = e.OK
+			}
+		}
+		if !cancelled && !cs.Stop {
+			for i, s := range o.Slots {
+				if i < n && s.IsError && lastOK[i] {
+					add("C06", "slot-error-without-failure:"+cc, "result %d is an error (%s), but the last thing processing item %d did was to return a success (value of type implementing error: %v): the slot is not the outcome of processing that item", i, s.ErrText, i, i < len(cs.Items) && cs.Items[i].EVal)
+					break
+				}
+			}
+		}
 		for i, s := range o.Slots {
 			if i < n && !s.IsError && i < len(o.Attempts) && o.Attempts[i] > 0 && !okSeen[i] {
 				add("C06", "slot-success-without-success:"+cc, "result %d is a success (value nil=%v), but no attempt of item %d and no fallback ever returned a success (%d attempts were made, each failed): the slot is not the outcome of processing that item", i, s.ValNil, i, o.Attempts[i])
